@@ -1154,26 +1154,23 @@ class TaskScenario(ScenarioData):
         if not alternative_resources:
             return primary_resources
 
-        # If no primaries, use alternatives
-        if not primary_resources:
-            return alternative_resources
+        # Smart routing: compare completion times. Every alternative is a candidate on its own:
+        # exactly one of them may replace the primary allocation, they are not a team.
+        best = primary_resources
+        best_end = self._estimateCompletionTime(primary_resources, effort) if primary_resources else None
+        chose_alternative = False
+        for alternative in alternative_resources:
+            candidate = [alternative]
+            candidate_end = self._estimateCompletionTime(candidate, effort)
+            if not best or (candidate_end is not None and (best_end is None or candidate_end < best_end)):
+                best = candidate
+                best_end = candidate_end
+                chose_alternative = True
 
-        # Smart routing: compare completion times
-        # Calculate when each path would complete the task
-
-        primary_end = self._estimateCompletionTime(primary_resources, effort)
-        alternative_end = self._estimateCompletionTime(alternative_resources, effort)
-
-        # Choose the path that finishes earlier
-        if alternative_end is not None and (primary_end is None or alternative_end < primary_end):
-            # Store which resource was selected for reporting
-            if not hasattr(self, "_selectedAlternative"):
-                self._selectedAlternative = True
-            return alternative_resources
-        else:
-            if not hasattr(self, "_selectedAlternative"):
-                self._selectedAlternative = False
-            return primary_resources
+        # Store which path was selected for reporting
+        if not hasattr(self, "_selectedAlternative"):
+            self._selectedAlternative = chose_alternative
+        return best
 
     def _estimateCompletionTime(self, resources: list[Any], effort: float) -> Optional[datetime]:
         """
